@@ -117,8 +117,9 @@ func (r *Runner) Twin(id int) {
 	// both must also answer the same to a mutating probe
 	for _, srv := range []*nfs.Nfs{twin} {
 		root := fh.MkRootFh3().Data
+		roomy := srv.VerifState().Balloc.NumFree() >= 8 && srv.VerifState().Ialloc.NumFree() >= 1
 		c := Exec(srv, Op{Proc: "create", Name: fmt.Sprintf("ztwin%d", id)}, root, nil)
-		if c.Code == 0 {
+		if c.Code == 0 && roomy {
 			w := Exec(srv, Op{Proc: "write", Off: 0, Cnt: 100, Stable: 2, Data: DataSpec{Pat: true, Len: 100, Seed: 5}}, c.H, nil)
 			rd := Exec(srv, Op{Proc: "read", Off: 0, Cnt: 100}, c.H, nil)
 			if w.Code != 0 || rd.Code != 0 || len(rd.Data) != 100 {
